@@ -1298,7 +1298,11 @@ func TestCheck(t *testing.T) {
 	r.Set("list_domains", map[string]any{"entries": listEntries, "sequences": "every sequence of 1..2 entries (quick: and of 3 over two sub-alphabets of 6; thorough: every sequence of 3) as deny list and as allow list, dns_rebind_protection off and on",
 		"cross": "allow x deny over every sequence of 1..2 entries of the cross alphabet", "cross_alphabet_quick": listCross, "cross_alphabet_thorough": listCrossThorough,
 		"forms": []string{"one directive per entry", "one multi-value directive", "{$VAR:default} placeholders"}, "hand_lists_for_forms": listHand})
-	r.Set("answer_domains", map[string]any{"address_pool": answerPool, "sequence_lengths": fmt.Sprintf("1..%d", answerMaxLen(r.Thorough())), "answers": answerCount[answerMaxLen(r.Thorough())],
+	var apool []string
+	for _, a := range answerPool {
+		apool = append(apool, a.text)
+	}
+	r.Set("answer_domains", map[string]any{"address_pool": apool, "sequence_lengths": fmt.Sprintf("1..%d", answerMaxLen(r.Thorough())), "answers": answerCount[answerMaxLen(r.Thorough())],
 		"policies": len(apols), "allow": []string{"none", ansNet6, ansNet4, "10.0.0.0/8", ansHost + " *." + ansHost}, "deny": []string{"none", ansNet6, ansNet4, "fc00::/7", "10.0.0.0/8"}, "dns_rebind_protection": "on, off"})
 	r.Set("rule_parts", map[string]string{
 		"A": "resolver answer sets: every sequence of 1..4 (thorough 1..5) addresses over the pool of answer_domains (public IPv6 x2, public IPv4 in 4-byte and IPv4-mapped form, unique-local and link-local IPv6, private IPv4 in both forms) as the answer for the delivery host, dns_rebind_protection on/off x allow x deny over IPv6/IPv4 networks and a host rule, as direct delivery and as redirect target; judged by the reference on the answer as given",
